@@ -12,6 +12,7 @@ import (
 	"encoding/json"
 	"fmt"
 	"math/rand"
+	"strings"
 
 	"Havoc/pkg/handlers"
 
@@ -148,6 +149,23 @@ func runHistory(c *lib.Ctx, h history) (sig, what string) {
 			}
 			w.queue[a] = nil
 			w.rec.Take()
+		case "drain":
+			// every outstanding task of the agent is answered by its final callback
+			for len(w.out[a]) > 0 {
+				var id uint32
+				for k := range w.out[a] {
+					if id == 0 || k < id {
+						id = k
+					}
+				}
+				cmd, body, _ := bodyFor("fs.pwd", w.rng, w.sims[a])
+				if resp := w.checkin(a, demon.Callback{Cmd: cmd, ReqID: id, Body: body}); resp.Panic != nil {
+					return lib.PanicSig(resp.Panic, resp.Stack), fmt.Sprintf("step %d: final callback panics: %v", si, resp.Panic)
+				}
+				delete(w.out[a], id)
+				w.done[a] = append(w.done[a], id)
+			}
+			w.rec.Take()
 		case "die":
 			// the session ends with a genuine final exit callback (a task is issued and handed
 			// out for it); forged callbacks that follow meet a dead session
@@ -195,6 +213,74 @@ func runHistory(c *lib.Ctx, h history) (sig, what string) {
 			if st.Layout == "exit" || st.Layout == "kill_date" {
 				// a dead agent's other ids stay outstanding; nothing else to model
 			}
+		case "forge-multi":
+			// one request, several callbacks: a forged one (console output with its own marker
+			// text) next to a genuine one for an outstanding task; the forged text must not show
+			var good uint32
+			for k := range w.out[a] {
+				if good == 0 || k < good {
+					good = k
+				}
+			}
+			if good == 0 {
+				continue
+			}
+			var bad uint32
+			switch st.IDKind {
+			case "other":
+				o := (a + 1 + st.Pick%2) % len(w.sims)
+				for k := range w.out[o] {
+					if !w.out[a][k] && (bad == 0 || k < bad) {
+						bad = k
+					}
+				}
+				if bad == 0 {
+					continue
+				}
+			case "completed":
+				if len(w.done[a]) == 0 {
+					continue
+				}
+				bad = w.done[a][st.Pick%len(w.done[a])]
+			default:
+				bad = 0x67000000 + uint32(st.Pick)
+			}
+			if w.out[a][bad] {
+				continue
+			}
+			forgedText := fmt.Sprintf("FORGED-%08x-%d", w.rng.Uint32(), si)
+			genuineText := fmt.Sprintf("GENUINE-%08x-%d", w.rng.Uint32(), si)
+			mk := func(id uint32, text string) demon.Callback {
+				var p demon.Pkg
+				p.Str(text)
+				return demon.Callback{Cmd: 90, ReqID: id, Body: p.B}
+			}
+			cbs := []demon.Callback{mk(bad, forgedText), mk(good, genuineText)}
+			if st.Pick%2 == 1 {
+				cbs[0], cbs[1] = cbs[1], cbs[0]
+			}
+			w.checkin(a)
+			w.queue[a] = nil
+			w.rec.Take()
+			resp := w.checkin(a, cbs...)
+			if resp.Panic != nil {
+				return lib.PanicSig(resp.Panic, resp.Stack), fmt.Sprintf("step %d: request with two callbacks panics: %v", si, resp.Panic)
+			}
+			sawGenuine := false
+			for _, ef := range w.rec.Take() {
+				for _, v := range ef.Output {
+					if strings.Contains(v, forgedText) {
+						return "forged-callback-effect:next-to-a-genuine-callback:" + st.IDKind, fmt.Sprintf("step %d: a request of agent %s carried two output callbacks, one with the %s request id %#x and one with the outstanding id %#x; the text of the forged one reached the console", si, w.sims[a].Hex(), st.IDKind, bad, good)
+					}
+					if strings.Contains(v, genuineText) {
+						sawGenuine = true
+					}
+				}
+			}
+			if !sawGenuine && !h.Pivot {
+				return "genuine-callback-dropped:next-to-a-forged-callback", fmt.Sprintf("step %d: the output callback with the outstanding id %#x did not reach the console when it shared a request with a forged one", si, good)
+			}
+			c.Observe("multi-callback-forgeries", 1)
 		case "forge", "replay-final":
 			var id uint32
 			kind := st.IDKind
@@ -219,6 +305,9 @@ func runHistory(c *lib.Ctx, h history) (sig, what string) {
 					continue
 				}
 				id = w.done[a][st.Pick%len(w.done[a])]
+				if st.IDKind == "last" {
+					id = w.done[a][len(w.done[a])-1]
+				}
 			case "zero":
 				id = 0
 			case "max":
@@ -308,6 +397,21 @@ func gen(rng *rand.Rand) history {
 		// one session is dead for the rest of the history (not the pivot parent)
 		h.Steps = append(h.Steps, step{Op: "die", Agent: 1 + rng.Intn(2), Pick: rng.Intn(2)})
 	}
+	if rng.Intn(3) == 0 {
+		// a task answers in two steps while another task is issued in between, then its id is
+		// replayed: whatever the teamserver remembers about "the task being answered" must not
+		// outlive the task
+		a := rng.Intn(3)
+		fin := []string{"sleep.fixed", "fs.cd", "fs.pwd", "checkin.meta"}[rng.Intn(4)]
+		h.Steps = append(h.Steps,
+			step{Op: "handout", Agent: a}, step{Op: "drain", Agent: a},
+			step{Op: "issue", Agent: a}, step{Op: "handout", Agent: a},
+			step{Op: "genuine", Agent: a, Layout: "output"},
+			step{Op: "issue", Agent: a}, step{Op: "handout", Agent: a},
+			step{Op: "genuine", Agent: a, Layout: fin},
+			step{Op: "replay-final", Agent: a, Layout: "output", IDKind: "last"},
+			step{Op: "replay-final", Agent: a, Layout: effectful[rng.Intn(len(effectful))], IDKind: "last"})
+	}
 	n := 12 + rng.Intn(18)
 	finals := []string{"checkin.meta", "fs.download.close", "sleep.fixed", "config.killdate"}
 	for _, l := range model.Layouts {
@@ -326,6 +430,9 @@ func gen(rng *rand.Rand) history {
 			h.Steps = append(h.Steps, step{Op: "genuine", Agent: a, Layout: finals[rng.Intn(len(finals))]})
 		case k < 5:
 			h.Steps = append(h.Steps, step{Op: "replay-final", Agent: a, Layout: effectful[rng.Intn(len(effectful))], Pick: rng.Intn(8)})
+			if rng.Intn(2) == 0 {
+				h.Steps = append(h.Steps, step{Op: "forge-multi", Agent: a, IDKind: []string{"never", "other", "completed"}[rng.Intn(3)], Pick: rng.Intn(1000)})
+			}
 		default:
 			h.Steps = append(h.Steps, step{Op: "forge", Agent: a, Layout: effectful[rng.Intn(len(effectful))], IDKind: kinds[rng.Intn(len(kinds))], Pick: rng.Intn(1000)})
 		}
